@@ -960,3 +960,4 @@ LEVEL_NOTE = ("the model is hand-written and tied to /repo by the correspondence
               "forest reachable on <=3 (quick) / <=4 (thorough) nodes, plus random histories on 4-8 nodes, compared after "
               "every call (outcome, parent, len(children), left, right of every node)")
 TECHNIQUE = "machine-checked proof (Lean 4) of an invariant + effect lemmas on an executable model; differential correspondence check against the real BinaryNode"
+RULE = RULE + ' Fourth session: interludes - between two operations a library call on other objects fails half-way (list_to_binarytree refusing a list, a node type whose constructor raises); the model never sees it.'
